@@ -32,6 +32,10 @@ def run(ctx: Ctx, chk) -> None:
     from .c16 import save_total
 
     chk.run_rule(save_total, ctx)
+    # ... and save succeeds for every registry: the text it writes can always be encoded (same rule as C15)
+    from .c15 import inplace3
+
+    chk.run_rule(inplace3, ctx)
 
 
 def stored_attrs(ctx: Ctx, c: ClassInfo) -> dict[str, str]:
